@@ -122,6 +122,12 @@ def mode_sweep(run, specs):
                 if md != v["mode"]:
                     idx[md] = len(s2["verifies"])
                     s2["verifies"].append({"mode": md, "vmembers": v["vmembers"], "log": False})
+            if len(v["vmembers"]) >= 2:
+                # the same batch once more with the statements that ask for the same parameter set SHARING one parameter object (a caller that builds
+                # its parameters once and clones them); results must not depend on object identity
+                idx["shared"] = len(s2["verifies"])
+                s2["verifies"].append({"mode": v["mode"], "vmembers": v["vmembers"], "log": False, "share_params": True})
+                idx["shared_of"] = v["mode"]
             table.append(idx)
         out.append(s2)
         tables.append(table)
@@ -130,6 +136,15 @@ def mode_sweep(run, specs):
 
 def check_modes(run, s2, o, table):
     for idx in table:
+        idx = dict(idx)
+        sh, sh_of = idx.pop("shared", None), idx.pop("shared_of", None)
+        if sh is not None:
+            a, b = o["verifies"][idx[sh_of]], o["verifies"][sh]
+            if not a["result"].startswith("unavailable") and not b["result"].startswith("unavailable"):
+                run.bump("shared-parameter-object repeats")
+                if (a["result"] == "ok") != (b["result"] == "ok") or b["result"].startswith("panic") or (a["result"] == "ok" and a.get("masks") != b.get("masks")):
+                    run.violation(f"the result of a batch depends on whether its statements share one parameter object or carry equal ones of their own: "
+                                  f"own objects {a['result'][:60]}, shared object {b['result'][:60]}", {"kind": "session", "spec": strip(s2), "verify": sh})
         r = {md: o["verifies"][i] for md, i in idx.items()}
         if any(x["result"].startswith("unavailable") for x in r.values()):
             continue
